@@ -67,6 +67,7 @@ type provProfile struct {
 	ncChecked   map[string]bool
 	limitEdited map[string]int // pool -> step of the last user edit of limits
 	driftEdit   map[string]time.Time
+	ncTemplate  map[string]string // nodeclaim name -> JSON of the NodePool template its creating task had read
 	noLimits    bool
 	saltByTask  map[int]*subRand
 	dsTemplates []*appsv1.DaemonSet
@@ -115,6 +116,7 @@ func (p *provProfile) Run(s *Sim) {
 	p.ncChecked = map[string]bool{}
 	p.limitEdited = map[string]int{}
 	p.driftEdit = map[string]time.Time{}
+	p.ncTemplate = map[string]string{}
 	p.saltByTask = map[int]*subRand{}
 	// options seam
 	p.e.Opts.CPURequests = int64(1000 * (1 + ch.Pick("prov.cpus", 8)))
@@ -546,7 +548,7 @@ func (p *provProfile) op() {
 			return
 		}
 	}
-	switch ch.Pick("prov.op", 12) - 1 {
+	switch ch.Pick("prov.op", 13) - 1 {
 	case -1:
 	case 0, 1, 2, 3, 4: // a deployment scales up: a wave of identical pods
 		p.deploy()
@@ -608,6 +610,16 @@ func (p *provProfile) op() {
 		if p.s.FaultsOn && !p.s.Cfg.NoFaults && p.s.Knobs.FaultKinds["crash"] {
 			p.note("crash")
 			p.s.Crash()
+		}
+	case 11: // a DaemonSet's template shrinks (updateStrategy OnDelete: running daemon pods keep the old, larger requests)
+		l := st.List(gvkDS)
+		if len(l) > 0 {
+			o := l[ch.Pick("prov.pick", len(l))]
+			st.Mutate(gvkDS, keyOf(o), func(o client.Object) {
+				ds := o.(*appsv1.DaemonSet)
+				ds.Spec.Template.Spec.Containers[0].Resources.Requests = corev1.ResourceList{corev1.ResourceCPU: resource.MustParse("20m"), corev1.ResourceMemory: resource.MustParse("16Mi")}
+			})
+			p.note("daemonset %s template shrinks to cpu=20m (existing daemon pods keep their requests)", o.GetName())
 		}
 	}
 }
@@ -751,6 +763,10 @@ func (p *provProfile) onWrite(ev WatchEvent, old client.Object, by *Task) {
 	if ev.GVK == gvkNodeClaim && ev.Type == EvAdded && by != nil {
 		if pi := p.passes[by.ID]; pi != nil {
 			pi.created[ev.Obj.GetName()] = ev.Obj.(*v1.NodeClaim)
+		}
+		// C15: the NodePool template the creating task built this NodeClaim from (its last NodePool list)
+		if np := lastNodePoolRead(by, ev.Obj.GetLabels()[v1.NodePoolLabelKey], true); np != nil {
+			p.ncTemplate[ev.Obj.GetName()] = templateJSON(np)
 		}
 	}
 	if ev.GVK == gvkNodeClaim && ev.Type != EvDeleted && by != nil {
@@ -903,6 +919,27 @@ func (p *provProfile) existingTargets(pi *passInfo) map[string]*ModelNode {
 func (p *provProfile) checkPass(pi *passInfo) {
 	s := p.s
 	targets := p.existingTargets(pi)
+	if os.Getenv("VERIF_DEBUG_PASS") != "" {
+		fmt.Fprintf(os.Stderr, "PASS step=%d task=%s\n", s.step, pi.task.Name())
+		for k, v := range pi.order {
+			var names []string
+			for _, uid := range v {
+				if q := findPod(pi.pods, uid); q != nil {
+					b, _ := json.Marshal(q.Spec.Containers[0].Resources.Requests)
+					names = append(names, q.Name+string(b))
+				}
+			}
+			fmt.Fprintf(os.Stderr, "  placed %s <- %v\n", k, names)
+		}
+		for k, mn := range targets {
+			var names []string
+			for _, q := range mn.Pods {
+				names = append(names, q.Name)
+			}
+			b, _ := json.Marshal(mn.Allocatable)
+			fmt.Fprintf(os.Stderr, "  target %s meta=%s alloc=%s taints=%v pods=%v labels=%v\n", k, mn.Meta, b, mn.Taints, names, mn.Labels)
+		}
+	}
 	// assigned[target] = pods placed there by this pass, in nomination order
 	keys := make([]string, 0, len(pi.order))
 	for k := range pi.order {
@@ -1004,9 +1041,19 @@ func (p *provProfile) checkPass(pi *passInfo) {
 				return
 			}
 		}
+		p.checkTruncation(pi, nc, pods, its)
+		if len(s.Viol) > 0 {
+			return
+		}
 		// C04: a simple pod goes to a new NodeClaim only if nothing existing admits it
 		for _, q := range pods {
 			if !podIsSimple(q) {
+				continue
+			}
+			// "neither carries nor is targeted by inter-pod constraints": another pod's anti-affinity term (required,
+			// or preferred and not yet relaxed) that selects q restricts where q may go
+			if targetedByAntiAffinity(q, pi.pods, p.namespaces()) {
+				s.Probe("c04-pod-targeted-by-anti-affinity")
 				continue
 			}
 			s.Probe("c04-simple-pod-on-new")
@@ -1040,6 +1087,25 @@ func (p *provProfile) checkPass(pi *passInfo) {
 }
 
 // missingDaemons: daemonsets that match the node but have no pod there yet.
+// targetedByAntiAffinity: some other live pod carries an anti-affinity term whose selector matches q.
+func targetedByAntiAffinity(q *corev1.Pod, pods []*corev1.Pod, nss nsView) bool {
+	for _, o := range pods {
+		if o.UID == q.UID || podTerminal(o) || o.Spec.Affinity == nil || o.Spec.Affinity.PodAntiAffinity == nil {
+			continue
+		}
+		terms := append([]corev1.PodAffinityTerm(nil), o.Spec.Affinity.PodAntiAffinity.RequiredDuringSchedulingIgnoredDuringExecution...)
+		for _, w := range o.Spec.Affinity.PodAntiAffinity.PreferredDuringSchedulingIgnoredDuringExecution {
+			terms = append(terms, w.PodAffinityTerm)
+		}
+		for _, t := range terms {
+			if termMatches(o, t, q, nss) {
+				return true
+			}
+		}
+	}
+	return false
+}
+
 func missingDaemons(mn *ModelNode, daemons []*corev1.Pod) []*corev1.Pod {
 	var out []*corev1.Pod
 	for _, d := range daemonPodsFor(&ModelNode{Name: mn.Name, Labels: mn.Labels}, daemons) {
@@ -1100,6 +1166,122 @@ func (p *provProfile) usableCapacity(pi *passInfo, key string, mn *ModelNode) bo
 
 func poolReady(np *v1.NodePool) bool {
 	return np.StatusConditions().Root().IsTrue() && np.DeletionTimestamp == nil && np.Spec.Replicas == nil
+}
+
+// checkTruncation: C19, second sentence. When the written instance-type list has exactly the truncation limit's
+// length, no type left out may be cheaper (by its cheapest available offering the written requirements permit) than the
+// dearest type kept, if it could host the NodeClaim's pods. "Could host" is judged conservatively: all pods simple, every
+// daemonset counted whether or not it would land there, pools with minValues skipped.
+func (p *provProfile) checkTruncation(pi *passInfo, nc *v1.NodeClaim, pods []*corev1.Pod, its []*cloudprovider.InstanceType) {
+	s := p.s
+	named := namedInstanceTypes(nc)
+	if len(named) == 0 || len(named) < provscheduling.MaxInstanceTypes {
+		return
+	}
+	nss := p.namespaces()
+	for _, q := range pods {
+		if !podIsSimple(q) || targetedByAntiAffinity(q, pi.pods, nss) {
+			return
+		}
+	}
+	poolReqs := &v1.NodeClaim{}
+	for _, np := range pi.pools {
+		if np.Name != nc.Labels[v1.NodePoolLabelKey] {
+			continue
+		}
+		for _, r := range np.Spec.Template.Spec.Requirements {
+			if r.MinValues != nil {
+				return
+			}
+		}
+		// the pool's own requirements (they may exclude instance types by name) apply to every candidate type
+		poolReqs.Spec.Requirements = np.Spec.Template.Spec.Requirements
+	}
+	// the NodeClaim without its instance-type requirement
+	open := nc.DeepCopy()
+	open.Spec.Requirements = nil
+	for _, r := range nc.Spec.Requirements {
+		if r.Key != corev1.LabelInstanceTypeStable {
+			open.Spec.Requirements = append(open.Spec.Requirements, r)
+		}
+	}
+	price := func(it *cloudprovider.InstanceType) (float64, bool) {
+		best, ok := 0.0, false
+		for _, of := range permittedOfferings(open, it) {
+			if of.CapacityType() == v1.CapacityTypeReserved {
+				return 0, false
+			}
+			if !ok || of.Price < best {
+				best, ok = of.Price, true
+			}
+		}
+		return best, ok
+	}
+	isNamed := map[string]bool{}
+	dearest, dearestName := 0.0, ""
+	for _, n := range named {
+		isNamed[n] = true
+		for _, it := range its {
+			if it.Name == n {
+				pr, ok := price(it)
+				if !ok {
+					return
+				}
+				if pr > dearest {
+					dearest, dearestName = pr, n
+				}
+			}
+		}
+	}
+	s.Probe("c19-truncated-nodeclaim-examined")
+	if os.Getenv("VERIF_DEBUG_PASS") != "" {
+		fmt.Fprintf(os.Stderr, "TRUNC nc=%s reqs=%v\n", nc.Name, nc.Spec.Requirements)
+		for _, it := range its {
+			var ofs []string
+			for _, of := range it.Offerings {
+				ofs = append(ofs, fmt.Sprintf("%s/%s=%.3f avail=%v", of.Zone(), of.CapacityType(), of.Price, of.Available))
+			}
+			pr, ok := price(it)
+			fmt.Fprintf(os.Stderr, "  type %s named=%v price=%.3f ok=%v cap=%v offerings=%v\n", it.Name, isNamed[it.Name], pr, ok, it.Capacity.Cpu(), ofs)
+		}
+	}
+	for _, u := range its {
+		if isNamed[u.Name] {
+			continue
+		}
+		pu, ok := price(u)
+		if !ok || !(pu < dearest) {
+			continue
+		}
+		compatible := ncAllows(poolReqs, corev1.LabelInstanceTypeStable, u.Name)
+		for key, req := range u.Requirements {
+			if key == corev1.LabelInstanceTypeStable {
+				continue
+			}
+			if req.Operator() == corev1.NodeSelectorOpIn && req.Len() == 1 && (!ncAllows(open, key, req.Values()[0]) || !ncAllows(poolReqs, key, req.Values()[0])) {
+				compatible = false
+			}
+		}
+		if !compatible {
+			continue
+		}
+		for _, of := range permittedOfferings(open, u) {
+			hn := HypotheticalNode(open, u, of)
+			hn.Pods = append([]*corev1.Pod(nil), pi.daemons...)
+			fits := true
+			for _, q := range pods {
+				if Admit(q, hn, pi.sv) != "" {
+					fits = false
+					break
+				}
+				hn.Pods = append(hn.Pods, q)
+			}
+			if fits {
+				s.Violate("C19", "truncation-dropped-cheaper-type", "NodeClaim %s names %d instance types (the truncation limit); the dearest kept, %s, costs %.5f at its cheapest permitted available offering, but %s at %.5f (%s/%s) hosts the same %d pods with every daemonset counted and was left out", nc.Name, len(named), dearestName, dearest, u.Name, pu, of.Zone(), of.CapacityType(), len(pods))
+				return
+			}
+		}
+	}
 }
 
 func (p *provProfile) checkWeight(pi *passInfo, nc *v1.NodeClaim, opener *corev1.Pod) {
@@ -1309,17 +1491,56 @@ func (p *provProfile) checkDrifted(nc *v1.NodeClaim, by *Task) {
 	s := p.s
 	pool := nc.Labels[v1.NodePoolLabelKey]
 	s.Probe("drifted")
-	if _, edited := p.driftEdit[pool]; edited {
-		s.Probe("drifted-after-drifting-edit")
-		return
-	}
 	if _, ok := p.ackedNC[nc.Name]; !ok && !strings.HasPrefix(nc.Name, "pool-") {
 		return
 	}
-	// requirement drift after a user edit of requirements is not generated here; offerings can flip,
-	// which never drifts a node
 	c := nc.StatusConditions().Get(v1.ConditionTypeDrifted)
-	s.Violate("C15", "self-inflicted-drift", "NodeClaim %s, created by Karpenter from NodePool %s whose template only saw non-drifting edits, was marked Drifted (%s: %s)", nc.Name, pool, c.Reason, c.Message)
+	if _, edited := p.driftEdit[pool]; !edited {
+		// requirement drift after a user edit of requirements is not generated here; offerings can flip,
+		// which never drifts a node
+		s.Violate("C15", "self-inflicted-drift", "NodeClaim %s, created by Karpenter from NodePool %s whose template only saw non-drifting edits, was marked Drifted (%s: %s)", nc.Name, pool, c.Reason, c.Message)
+		return
+	}
+	// the template was edited at some point: the NodeClaim is still fresh with respect to the NodePool version the
+	// marking task read if that version's template equals the one the NodeClaim was created from
+	s.Probe("drifted-after-drifting-edit")
+	created, ok := p.ncTemplate[nc.Name]
+	np := lastNodePoolRead(by, pool, false)
+	if !ok || np == nil || created != templateJSON(np) {
+		return
+	}
+	s.Probe("drifted-although-template-equal")
+	// was the NodePool's hash annotation already re-stamped after the last drifting edit when the marking task read it?
+	// (only to name the history precisely: either way the NodeClaim is fresh and reported Drifted)
+	if np.Annotations[v1.NodePoolHashAnnotationKey] != np.Hash() {
+		s.Violate("C15", "self-inflicted-drift/hash-annotation-not-yet-restamped", "NodeClaim %s was created from the current template of NodePool %s and was marked Drifted (%s) while the NodePool's hash annotation still described the template before the last edit", nc.Name, pool, c.Reason)
+		return
+	}
+	s.Violate("C15", "self-inflicted-drift", "NodeClaim %s was created from the very template NodePool %s has now (hash annotation up to date), yet it was marked Drifted (%s: %s)", nc.Name, pool, c.Reason, c.Message)
+}
+
+// lastNodePoolRead: the NodePool version a task last read (from a list if list is set, else from any read).
+func lastNodePoolRead(t *Task, pool string, list bool) *v1.NodePool {
+	if t == nil {
+		return nil
+	}
+	for i := len(t.Reads) - 1; i >= 0; i-- {
+		r := t.Reads[i]
+		if r.Kind != "NodePool" || r.Err != nil || (list && r.Verb != "list") {
+			continue
+		}
+		for _, o := range r.Objs {
+			if np, ok := o.(*v1.NodePool); ok && np.Name == pool {
+				return np
+			}
+		}
+	}
+	return nil
+}
+
+func templateJSON(np *v1.NodePool) string {
+	b, _ := json.Marshal(np.Spec.Template)
+	return string(b)
 }
 
 func (p *provProfile) finalChecks() {
